@@ -568,9 +568,9 @@ PLANS["C12"]["level_text"] += " Further sanitizer passes (thorough): the sharded
 _with_sanitizers("C15", lambda seed: [san_step("asan_codec_ws", "asan", "vproto", "codec_ws", ["--messages", "60000", "--budget_s", "150"])])
 PLANS["C15"]["level_text"] += " Sanitizer pass (thorough): the same engine rebuilt with AddressSanitizer (simd-json's SIMD parser on every generated and hostile message); Miri is impractical here (60 s per message)."
 # C02: the selection enumeration under Miri for small swarms.
-_with_sanitizers("C02", lambda seed: [san_step("miri_udp_select", "miri", "vudp", "udp_select", ["--max_size", "7", "--full_cover_size", "0", "--budget_s", "240"]),
-                                      san_step("miri_http_select", "miri", "vhttp", "http_select", ["--max_size", "7", "--budget_s", "240"]),
-                                      san_step("miri_ws_select", "miri", "vws", "ws_select", ["--max_size", "7", "--budget_s", "240"])])
+_with_sanitizers("C02", lambda seed: [san_step("miri_udp_select", "miri", "vudp", "udp_select", ["--min_size", "3", "--max_size", "12", "--full_cover_size", "0", "--draws_cap", "4", "--budget_s", "240"]),
+                                      san_step("miri_http_select", "miri", "vhttp", "http_select", ["--min_size", "5", "--max_size", "9", "--budget_s", "240"]),
+                                      san_step("miri_ws_select", "miri", "vws", "ws_select", ["--min_size", "3", "--max_size", "9", "--budget_s", "240"])])
 PLANS["C02"]["level_text"] += SAN_NOTE["miri"]
 # C04: the threaded stress program under Miri (data races, the Arc::get_mut / strong-count protocol, deadlock) with different
 # scheduler seeds per shard.
